@@ -57,6 +57,11 @@ def write_literals(d):
 SKIPPED = 0
 
 
+# squeezed default streams (dx --squeeze lo,hi): halves, thirds, tenths of (0,1)
+SQUEEZES = ['0.5,1', '0,0.5', '0,0.34', '0.33,0.67', '0.66,1', '0.9,1', '0,0.1']
+SQUEEZES_QUICK = ['0,0.5', '0.33,0.67']
+
+
 def run_dx(variant, cfg_lines, tag, layers, oracle, api='genbbsub', phases=1, deadline=600, extra=(), jobs=16, timeout=3600):
     exe = vlib.build_harness('checks/dx.cc', variant)
     d = vlib.scratch(tag)
